@@ -14,7 +14,10 @@ Generated domain
       BOUNDARY ORIGINS: `.ORG` to 0, 1, 0xFFFF, 0x10000, the section bases, 0xFFFFF at any position (after emitted
       bytes, inside data / bss, after an earlier higher .ORG), kept wherever the model says the run collides with
       nothing (M.settle_origins); code that runs across a 64 KiB boundary and then jumps page-locally to labels;
-  (c) call histories: sequences of assemble() on 1..3 Assembler objects over valid and invalid programs.
+  (c) call histories: sequences of assemble() on 1..3 Assembler objects over valid and invalid programs;
+  (d) LABEL SPELLINGS: in half of the programs labels are renamed (definition and every reference, references in
+      any case) to register, internal-memory register, mnemonic, directive / section, mnemonic-prefixed and
+      number-like names (M.apply_label_names); a reference is only written where the tree's parser reads a symbol.
 Oracle: layout model (c10_model.layout) for label addresses and byte placement, per-instruction standalone
 equivalence, operand-field extraction for label references, page rule, history independence.
 """
@@ -30,7 +33,9 @@ from .. import c10_shapes as S
 from .. import c10_model as M
 
 PROPERTY = "C10"
-RULE = ("programs drawn from the assembler grammar (labels in front of most statements, palette instructions with "
+RULE = ("programs drawn from the assembler grammar (labels in front of most statements -- spelled L1 / lbl_2 / ... or, "
+        "in half of the programs, like registers, internal-memory registers, mnemonics, directives, numbers of other "
+        "notations, in any case --, palette instructions with "
         "numeric or symbolic operands, SECTION/.ORG/defb/defw/defl/defs/defm) checked against a layout model, "
         "per-instruction standalone assembly and operand-field extraction; plus assemble() call histories. "
         "Non-trivial program = assembles (or is rejected by the page rule as predicted) and has >= 1 forward and "
@@ -379,6 +384,10 @@ def _strategies() -> Any:
                         ref = pick(min(lim, 0xFFFFF), stmt["t"] == "defl")
                         if ref is not None:
                             stmt["args"][i] = ref
+        # label SPELLINGS (register / IMEM register / mnemonic / directive / number-like names, any case): a pass of
+        # its own over the finished program, driven by a hash of the program, so that what Hypothesis drew above
+        # is the same program with or without it
+        M.apply_label_names(prog, int(jhash(prog, 8), 16))
         return prog
 
     @st.composite
@@ -423,6 +432,29 @@ def _features(prog: Dict[str, Any]) -> Tuple[List[str], bool]:
     before_of = {r["idx"]: r["before"] for r in lay["recs"] if "before" in r}
     run_start = {r["idx"]: (addr_of[r["owner"]] if r["owner"] is not None else M.SECTION_BASE[r["section"]])
                  for r in lay["recs"] if "owner" in r}
+    referenced: Dict[str, List[str]] = {}
+    for ln in lines:
+        for op in M._sym_ops(ln.get("stmt")):
+            st_ = ln["stmt"]
+            pos = ("org-operand" if st_["t"] == "org" else "data-argument" if st_["t"] in M.DATA_W else
+                   "near-target" if S.is_near(st_["shape"]) else "instruction-operand")
+            referenced.setdefault(op["sym"].upper(), []).append(pos)
+            if M.name_class(op["sym"]) != "generated" and str(op.get("text")) not in (op["sym"], op["sym"].upper(),
+                                                                                      op["sym"].lower()):
+                labels.append("label-name-ref-mixed-case")
+    for ln in lines:
+        if not ln.get("label"):
+            continue
+        cls = M.name_class(ln["label"])
+        if cls != "generated":
+            labels.append("label-name:" + cls)
+            for pos in referenced.get(ln["label"].upper(), []):
+                labels.append("label-name-referenced:" + cls)
+                labels.append(f"label-name-referenced:{cls}:{pos}")
+        if M.split_remainders(ln["label"]):
+            labels.append("label-name-begins-with-operandless-mnemonic")
+            if ln.get("own_line"):
+                labels.append("label-name-begins-with-operandless-mnemonic:own-line")
     for i, ln in enumerate(lines):
         stmt = ln.get("stmt")
         if not stmt:
@@ -711,7 +743,10 @@ def run(ctx: Ctx) -> Report:
     n_hist = ctx.pick(160, 1280)
     shards = ctx.pick(32, 64)
     hshards = ctx.pick(16, 32)
-    budget = ctx.pick(90.0, 480.0)
+    import os
+    # per-shard time budget (a hit is INCONCLUSIVE, never a verdict); VERIF_C10_BUDGET_S=0 switches it off, for
+    # validation runs on a machine that other jobs keep busy
+    budget = float(os.environ.get("VERIF_C10_BUDGET_S", ctx.pick(90.0, 480.0)))
     tasks: List[Tuple[str, int, int, int, float]] = []
     for i in range(shards):
         tasks.append(("prog", ctx.shard_seed(i), n_prog // shards, 14 if i % 4 else 40, budget))
@@ -726,6 +761,10 @@ def run(ctx: Ctx) -> Report:
     rep.extra["palette_excluded"] = len(cands) - len(_PALETTE)
     rep.extra["palette_excluded_examples"] = [f"{i['template']}: {i['why']}" for i in infos if not i["ok"]][:8]
     rep.extra["palette_symbolic_shapes"] = len(_PAL_SYM)
+    rep.extra["label_name_vocabulary"] = {cls: len(names) for cls, _w, names in M.NAME_VOCABULARY}
+    if not M.name_probe_available():
+        rep.inconclusive.append("label spellings not exercised: the tree's parser object (sc62015.pysc62015.asm."
+                                "asm_parser) is not reachable, so no label was renamed")
     forms = {}
     for name, src in DIRECTIVE_PROBES.items():
         r = M.fresh_assemble(src)
@@ -752,8 +791,13 @@ def run(ctx: Ctx) -> Report:
         "two runs never emit to the same address and no statement extends beyond 0x100000: a boundary origin "
         "(.ORG 0 / 1 / page edge / section base / 0xFFFFF) whose run would collide falls back to a separate slot; "
         "this is decided on the layout model inside the generator, never on the output of the tree under test",
-        "strings contain no double quote or backslash; numbers have no leading zeros; label names never coincide "
-        "with register or internal-memory register names",
+        "strings contain no double quote or backslash; numbers have no leading zeros",
+        "label spellings: any CNAME may name a label (nothing in the grammar reserves register, internal-memory "
+        "register, mnemonic or directive names), but a reference is only written where the tree's PARSER (asked "
+        "alone, sc62015.pysc62015.asm.asm_parser; never the evaluation) reads that spelling as a symbol atom: "
+        "`JP x` / `MV A, [il]` are register operands by the grammar's terminal priorities, so a label x is "
+        "referenced through CALL / JPF / defw / .ORG ... only; identifiers that are a register name followed by an "
+        "operand-less mnemonic (`JP XSC`) are not generated",
         "history verdicts compare with a fresh Assembler in the same process (module-level caches are already "
         "warm); error messages are compared on their first line",
     ]
